@@ -1,9 +1,280 @@
-import PhreeqcVerif.Model.Transport
-/-! C11 (first version; extended below) -/
+import PhreeqcVerif.Lemmas.Transport
+/-! # C11 — transport only moves dissolved mass: conservation, exact shifts, bounded mixing
+
+Theorems about the executable model `Model/Transport.lean` of `init_mix` (non-multicomponent branch), the sub-mix of
+`transport()` + `add_mix`, the advective copy loop and their iteration over shifts. Every statement is for **all**
+column set-ups (any number of cells, lengths, dispersivities, diffusion coefficient, time step, flow direction, boundary
+condition pair, `correct_disp`), all initial columns and any number of shifts and sub-mixes.
+
+* `weights_convex`, `bounded_mixing` — full strength.
+* `closed_inventory_constant` — the property's conservation clause (diffusion only, closed ends, equal lengths).
+* `advective_shift_exact_forward/back`, `pure_advection_nmix_zero`, `pure_advection_step`, `advection_keyword_exact`.
+* `flux_inventory_balance`, `flux_inventory_balance_back` — with flow and flux boundaries the inventory changes by
+  inflow − outflow, for any dispersivities. (On the tree before /repo commit 02a99847 this was false of the code: a
+  stale local `dav` in `init_mix`, DESIGN §6 item 7, lost 2/15 of a tracer in one step; `stale_dav_regression` keeps
+  the witness.)
+
+The tie to the C++ is in `tools/props/c11.py` (mixing factors read mid-run from `Dispersion_mix_map`, end-to-end runs). -/
 namespace PhreeqcVerif.Transport
 
-/-- after a forward shift the column has the same number of cells -/
-theorem shiftF_length (c : Col Rat) : (shiftF c).cells.length = c.cells.length := by
-  simp [shiftF]
+
+theorem rawMix_max_nonneg (s : Setup) : 0 ≤ (rawMix s).2 := by
+  show 0 ≤ lastMax s _ (firstMax s _ (loopMax _))
+  exact le_trans (le_trans (foldl_updMax_ge _ 0).1 (firstMax_ge _ _ _)) (lastMax_ge _ _ _)
+
+/-- **weights_convex** — for every physically meaningful column set-up (any number of cells, any lengths,
+dispersivities — zero ones included —, diffusion coefficient, time step, flow direction, boundary
+condition pair, `correct_disp`) every entry of `Dispersion_mix_map` computed by `init_mix` is a convex combination:
+the three weights are non-negative, at most one, sum to one, and the self weight exceeds 1/3. -/
+theorem weights_convex (s : Setup) (hs : s.Valid) :
+    ∀ w ∈ (initMix s).weights, w.Convex ∧ 1 / 3 < w.s ∧ w.l ≤ 1 ∧ w.r ≤ 1 ∧ w.s ≤ 1 := by
+  intro w hw
+  simp only [initMix] at hw
+  by_cases h0 : (rawMix s).2 = 0
+  · simp [nmixOf, h0, weightsWith] at hw
+  · have hpos : 0 < (rawMix s).2 := lt_of_le_of_ne (rawMix_max_nonneg s) (Ne.symm h0)
+    exact weightsWith_convex (rawMix_bnd hs) (nmixOf_gt s hpos) (nmixOf_pos s hpos) w hw
+
+/-- `init_mix` stores one triple per cell (when there is anything to mix) -/
+theorem weights_length (s : Setup) (h : (initMix s).nmix ≠ 0) : (initMix s).weights.length = s.n := by
+  simp only [initMix] at h ⊢
+  rw [weightsWith_length _ h]
+  show (lastFix s (firstFix s (cellLoop s none s.cells 0))).length = s.cells.length
+  have h1 : ∀ ps : List (Rat × Rat), (lastFix s ps).length = ps.length := by
+    intro ps; unfold lastFix; split
+    · split
+      · exact modLast_length _ _
+      · rfl
+    · rfl
+  have h2 : ∀ ps : List (Rat × Rat), (firstFix s ps).length = ps.length := by
+    intro ps; unfold firstFix; split
+    · split
+      · cases ps <;> simp [modHead]
+      · rfl
+    · rfl
+  rw [h1, h2, cellLoop_length]
+
+/-- one transport step keeps every value inside `[lo, hi]` -/
+theorem transportStep_within (s : Setup) (hs : s.Valid) {lo hi : Rat} {c : Col Rat} (hc : c.Within lo hi) :
+    (transportStep s c).Within lo hi :=
+  transportStepWith_within (fun w hw => (weights_convex s hs w hw).1) _ _ _ hc
+
+/-- **bounded_mixing** (max/min principle) — with a single diffusion coefficient, for every column set-up, every
+number of shifts and sub-mixes: if the initial column and the two boundary solutions lie in `[lo, hi]`, so does every
+cell after every transport step. -/
+theorem bounded_mixing (s : Setup) (hs : s.Valid) (shifts : Nat) {lo hi : Rat} {c : Col Rat} (hc : c.Within lo hi) :
+    ∀ c' ∈ transportRun s shifts c, c'.Within lo hi :=
+  runWith_within (fun _ h => transportStep_within s hs h) shifts c hc
+
+/-- equal cell lengths, no flow, no constant-concentration boundary: the stored weights are symmetric -/
+theorem initMix_sym (s : Setup) (hf : s.flow = Flow.none) (h1 : s.bconFirst ≠ 1) (h2 : s.bconLast ≠ 1)
+    {L : Rat} (hL : ∀ c ∈ s.cells, c.len = L) (hk : (initMix s).nmix ≠ 0) : SymFrom 0 (initMix s).weights := by
+  simp only [initMix] at hk ⊢
+  have e : (rawMix s).1 = cellLoop s none s.cells 0 := by
+    show lastFix s (firstFix s (cellLoop s none s.cells 0)) = _
+    simp [lastFix, firstFix, h1, h2]
+  rw [e]
+  have : SymP 0 (cellLoop s none s.cells 0) := by
+    cases hc : s.cells with
+    | nil => simp [cellLoop, SymP]
+    | cons c rest =>
+      rw [hc] at hL
+      exact cellLoop_sym hf rest c none 0 (hL c (by simp)) (fun x h => hL x (by simp [h])) (by intro p h; cases h)
+  simpa using weightsWith_sym hk _ 0 this
+
+/-- one diffusion-only step of a closed equal-length column keeps the inventory -/
+theorem transportStep_sum (s : Setup) (hf : s.flow = Flow.none) (h1 : s.bconFirst ≠ 1) (h2 : s.bconLast ≠ 1)
+    {L : Rat} (hL : ∀ c ∈ s.cells, c.len = L) {c : Col Rat} (hn : c.cells.length = s.n) :
+    (transportStep s c).sum = c.sum ∧ (transportStep s c).cells.length = s.n := by
+  unfold transportStep transportStepWith
+  simp only [hf, shift]
+  by_cases hk : (initMix s).nmix = 0
+  · have hp : preMixes s 0 = 0 := by simp [preMixes]
+    simp [hk, iter, hn, hp]
+  · have hs := initMix_sym s hf h1 h2 hL hk
+    have hl : c.cells.length = (initMix s).weights.length := by rw [weights_length s hk, hn]
+    obtain ⟨a1, b1⟩ := iter_mixStep_sum hs (preMixes s (initMix s).nmix) c hl
+    obtain ⟨a2, b2⟩ := iter_mixStep_sum hs ((initMix s).nmix - preMixes s (initMix s).nmix) _ (by rw [b1]; exact hl)
+    exact ⟨by rw [a2, a1], by rw [b2, b1, hn]⟩
+
+/-- **closed_inventory_constant** — diffusion only, no constant-concentration boundary (closed; a flux boundary
+without flow is coded identically), equal cell lengths; any number of cells, any diffusion coefficient and time step
+(hence any number of sub-mixes), any number of shifts: the column inventory after every shift equals the initial one. -/
+theorem closed_inventory_constant (s : Setup) (hf : s.flow = Flow.none) (h1 : s.bconFirst ≠ 1) (h2 : s.bconLast ≠ 1)
+    {L : Rat} (hL : ∀ c ∈ s.cells, c.len = L) (shifts : Nat) {c : Col Rat} (hn : c.cells.length = s.n) :
+    ∀ c' ∈ transportRun s shifts c, c'.sum = c.sum := by
+  unfold transportRun
+  induction shifts generalizing c with
+  | zero => intro c' h; simp [runWith] at h
+  | succ k ih =>
+    intro c' h
+    obtain ⟨a, b⟩ := transportStep_sum s hf h1 h2 hL hn
+    simp only [runWith, List.mem_cons] at h
+    rcases h with rfl | h
+    · exact a
+    · rw [ih b c' h, a]
+
+/-! ### advective shift -/
+
+/-- **advective_shift_exact** (forward) — after the copy loop cell `i+1` (list index `i`) holds the previous content
+of cell `i` (index `i` of `first :: cells`): cell 1 receives the inflow solution 0, the boundary solutions are unchanged. -/
+theorem advective_shift_exact_forward (c : Col Rat) :
+    (shiftF c).cells.length = c.cells.length ∧ (shiftF c).first = c.first ∧ (shiftF c).last = c.last ∧
+    ∀ i, i < c.cells.length → (shiftF c).cells[i]? = (c.first :: c.cells)[i]? := by
+  refine ⟨by simp [shiftF], rfl, rfl, ?_⟩
+  intro i hi
+  simp only [shiftF]
+  rw [List.getElem?_dropLast]
+  simp [hi]
+
+/-- **advective_shift_exact** (backward) — cell `i` receives the previous content of cell `i+1`, cell `n` the
+solution `n+1`. -/
+theorem advective_shift_exact_back (c : Col Rat) :
+    (shiftB c).cells.length = c.cells.length ∧ (shiftB c).first = c.first ∧ (shiftB c).last = c.last ∧
+    ∀ i, i < c.cells.length → (shiftB c).cells[i]? = (c.cells ++ [c.last])[i + 1]? := by
+  refine ⟨?_, rfl, rfl, ?_⟩
+  · simp only [shiftB]; cases c.cells <;> simp
+  · intro i hi
+    simp only [shiftB]
+    cases hc : c.cells with
+    | nil => simp [hc] at hi
+    | cons x t => simp
+
+/-- pure advection: all dispersivities zero and no diffusion (`D = 0` or `Δt = 0`) ⇒ `init_mix` returns 0 sub-mixes -/
+theorem pure_advection_nmix_zero (s : Setup) (hd : ∀ c ∈ s.cells, c.disp = 0) (h0 : s.diffc = 0 ∨ s.timest = 0) :
+    (initMix s).nmix = 0 := by
+  have hD : diffcHere s = 0 := by rcases h0 with h | h <;> simp [diffcHere, h]
+  simp [initMix, nmixOf, rawMix_zero hd hD]
+
+/-- **pure_advection_step** — with pure advection a transport step *is* the advective copy, for every column -/
+theorem pure_advection_step (s : Setup) (hd : ∀ c ∈ s.cells, c.disp = 0) (h0 : s.diffc = 0 ∨ s.timest = 0) (c : Col Rat) :
+    transportStep s c = shift s.flow c := by
+  have hk := pure_advection_nmix_zero s hd h0
+  simp [transportStep, transportStepWith, hk, preMixes, iter]
+
+
+/-! ### flow with flux boundaries: inventory balance -/
+
+/-- flow, no constant-concentration boundary, equal lengths (any dispersivities, zero ones included): the stored
+weights are symmetric, `m1[i] = m[i+1]` -/
+theorem initMix_sym_flow (s : Setup) (hm : s.moving = true) (h1 : s.bconFirst ≠ 1) (h2 : s.bconLast ≠ 1)
+    {L : Rat} (hL : ∀ c ∈ s.cells, c.len = L) (hk : (initMix s).nmix ≠ 0) : SymFrom 0 (initMix s).weights := by
+  simp only [initMix] at hk ⊢
+  have e : (rawMix s).1 = cellLoop s none s.cells 0 := by
+    show lastFix s (firstFix s (cellLoop s none s.cells 0)) = _
+    simp [lastFix, firstFix, h1, h2]
+  rw [e]
+  have : SymP 0 (cellLoop s none s.cells 0) := by
+    cases hc : s.cells with
+    | nil => simp [cellLoop, SymP]
+    | cons c rest =>
+      rw [hc] at hL
+      exact cellLoop_sym_flow hm rest c none 0 (hL c (by simp)) (fun x h => hL x (by simp [h])) (by intro p h; cases h)
+  simpa using weightsWith_sym hk _ 0 this
+
+/-- sub-mixes with flow and flux boundaries at both ends keep the inventory -/
+theorem flow_mixes_keep_sum (s : Setup) (hm : s.moving = true) (h1 : s.bconFirst = 3) (h2 : s.bconLast = 3)
+    {L : Rat} (hL : ∀ c ∈ s.cells, c.len = L) (k : Nat) {c : Col Rat} (hn : c.cells.length = s.n) :
+    (iter (mixStep (initMix s).weights) k c).sum = c.sum := by
+  by_cases hk : (initMix s).nmix = 0
+  · have : (initMix s).weights = [] := by simp [initMix] at hk ⊢; simp [hk, weightsWith]
+    rw [this]
+    induction k generalizing c with
+    | zero => rfl
+    | succ k ih =>
+      have e : mixStep ([] : List (W Rat)) c = c := by cases c with | mk f cs l => cases cs <;> simp [mixStep, mixGo]
+      rw [iter, e]; exact ih hn
+  · have hs := initMix_sym_flow s hm (by omega) (by omega) hL hk
+    exact (iter_mixStep_sum hs k c (by rw [weights_length s hk, hn])).1
+
+/-- **flux_inventory_balance** (forward flow) — flux boundaries at both ends, equal cell lengths; any dispersivities
+(zero ones included), diffusion coefficient, time step, number of sub-mixes, any column: after a transport step
+`inventory + (content of the last cell before the step) = old inventory + inflow solution` — dissolved mass is moved,
+never created or lost. (Before /repo commit 02a99847 this needed the hypothesis "no zero dispersivity": the stale local
+`dav` of `init_mix` made `m1[i] ≠ m[i+1]`; see `stale_dav_regression`.) -/
+theorem flux_inventory_balance (s : Setup) (hf : s.flow = Flow.forward) (h1 : s.bconFirst = 3) (h2 : s.bconLast = 3)
+    {L : Rat} (hL : ∀ c ∈ s.cells, c.len = L) {c : Col Rat} (hn : c.cells.length = s.n) :
+    (transportStep s c).sum + (c.first :: c.cells).getLast (List.cons_ne_nil _ _) = c.sum + c.first := by
+  have hm : s.moving = true := by simp [Setup.moving, hf]
+  have hb : bC s = false := by simp [bC, hm, h1, h2]
+  have hshift : (shiftF c).sum + (c.first :: c.cells).getLast (List.cons_ne_nil _ _) = c.sum + c.first := by
+    have := dropLast_sum_add_getLast (c.first :: c.cells) (List.cons_ne_nil _ _)
+    simp only [Col.sum, shiftF, List.sum_cons] at this ⊢
+    linarith
+  unfold transportStep transportStepWith
+  simp only [hf, shift, preMixes, hb, Bool.false_eq_true, if_false, iter, Nat.sub_zero]
+  rw [flow_mixes_keep_sum s hm h1 h2 hL _ (by simpa [shiftF] using hn)]
+  exact hshift
+
+/-- **flux_inventory_balance** (backward flow): `inventory + (content of cell 1 before the step) = old inventory +
+solution n+1` -/
+theorem flux_inventory_balance_back (s : Setup) (hf : s.flow = Flow.back) (h1 : s.bconFirst = 3) (h2 : s.bconLast = 3)
+    {L : Rat} (hL : ∀ c ∈ s.cells, c.len = L) {c : Col Rat} (hn : c.cells.length = s.n) (hpos : c.cells ≠ []) :
+    (transportStep s c).sum + c.cells.head hpos = c.sum + c.last := by
+  have hm : s.moving = true := by simp [Setup.moving, hf]
+  have hb : bC s = false := by simp [bC, hm, h1, h2]
+  have hlen : (shiftB c).cells.length = s.n := by
+    rw [← hn]; simp only [shiftB]; cases c.cells <;> simp
+  have hshift : (shiftB c).sum + c.cells.head hpos = c.sum + c.last := by
+    obtain ⟨f, cs, l⟩ := c
+    cases cs with
+    | nil => exact absurd rfl hpos
+    | cons x t => simp [Col.sum, shiftB]; ring
+  unfold transportStep transportStepWith
+  simp only [hf, shift, preMixes, hb, Bool.false_eq_true, if_false, iter, Nat.sub_zero]
+  rw [flow_mixes_keep_sum s hm h1 h2 hL _ hlen]
+  exact hshift
+
+/-- regression input of the finding "stale `dav`" (three cells of length 1, dispersivities 0.1, 0.1, 0): with the
+reset of `dav` the factors are symmetric (`m1[2] = m[3] = 1/5`; the unrepaired code gave `m[3] = 1/15`) … -/
+theorem stale_dav_regression :
+    (rawMix { cells := [⟨1, 1/10⟩, ⟨1, 1/10⟩, ⟨1, 0⟩], flow := .forward, bconFirst := 3, bconLast := 3,
+              correctDisp := false, diffc := 0, timest := 0 }).1 = [(0, 1/10), (1/10, 1/5), (1/5, 0)] := by
+  decide +kernel
+
+/-- … and the tracer placed in cell 1 is still all there after one step (the unrepaired code kept 13/15 of it). -/
+theorem stale_dav_regression_inventory :
+    (transportStep { cells := [⟨1, 1/10⟩, ⟨1, 1/10⟩, ⟨1, 0⟩], flow := .forward, bconFirst := 3, bconLast := 3,
+                     correctDisp := false, diffc := 0, timest := 0 } { first := 0, cells := [1, 0, 0], last := 0 }).sum = 1 := by
+  decide +kernel
+
+/-- the ADVECTION keyword: every step is the exact copy of the upstream neighbour -/
+theorem advection_keyword_exact (c : Col Rat) (k : Nat) :
+    advectionRun (k + 1) c = shiftF c :: advectionRun k (shiftF c) := rfl
+
+/-! ### non-vacuity: concrete, non-trivial instances -/
+
+/-- a 3-cell column, unequal lengths, mixed dispersivities, forward flow, constant/flux boundaries -/
+def exSetup : Setup :=
+  { cells := [⟨1, 1/10⟩, ⟨1/2, 0⟩, ⟨2, 3/10⟩], flow := .forward, bconFirst := 1, bconLast := 3,
+    correctDisp := true, diffc := 1/1000, timest := 100 }
+
+example : exSetup.Valid := by
+  refine ⟨?_, by decide +kernel, by decide +kernel⟩
+  intro c hc
+  simp only [exSetup, List.mem_cons, List.mem_nil_iff, or_false] at hc
+  rcases hc with rfl | rfl | rfl <;> exact ⟨by decide +kernel, by decide +kernel⟩
+
+example : (initMix exSetup).nmix = 2 := by decide +kernel
+example : (initMix exSetup).weights.length = 3 := by decide +kernel
+-- the weights are not trivial (all three entries of the middle cell are strictly positive)
+example : ((initMix exSetup).weights.map fun w => decide (0 < w.l ∧ 0 < w.s ∧ 0 < w.r)) = [true, true, false] := by decide +kernel
+
+/-- closed, equal lengths, diffusion only: 4 cells, `nmix = 4`, tracer 1 in the first cell -/
+def exClosed : Setup :=
+  { cells := [⟨1/2, 0⟩, ⟨1/2, 0⟩, ⟨1/2, 0⟩, ⟨1/2, 0⟩], flow := .none, bconFirst := 2, bconLast := 2,
+    correctDisp := false, diffc := 1/100, timest := 25 }
+
+example : (initMix exClosed).nmix = 4 := by decide +kernel
+example : (transportRun exClosed 2 { first := 5, cells := [1, 0, 0, 0], last := 7 }).map Col.sum = [1, 1] := by decide +kernel
+-- … and the column really changes
+example : ((transportRun exClosed 1 { first := 5, cells := [1, 0, 0, 0], last := 7 }).map Col.cells) ≠ [[1, 0, 0, 0]] := by
+  decide +kernel
+-- unequal lengths are *not* conservative in this scheme (the engine warns "Unequal cell-lengths may give mass-balance error")
+example : (transportRun { exClosed with cells := [⟨1/2, 0⟩, ⟨1, 0⟩, ⟨1/2, 0⟩, ⟨1/2, 0⟩] } 1
+    { first := 5, cells := [1, 0, 0, 0], last := 7 }).map Col.sum ≠ [1] := by decide +kernel
+
+example : (shiftF { first := 9, cells := [1, 2, 3], last := 7 } : Col Rat).cells = [9, 1, 2] := by decide +kernel
+example : (shiftB { first := 9, cells := [1, 2, 3], last := 7 } : Col Rat).cells = [2, 3, 7] := by decide +kernel
 
 end PhreeqcVerif.Transport
